@@ -306,8 +306,13 @@ func RunScenario(sc *Scenario, base *Base, prefix []int, keepTrace bool, sleep .
 	s.FS.TagFn = func() (int, int) { t := vsync.ThreadID(); return curOp[t], t }
 	if sc.FSYield || sc.TrackRaces {
 		s.FS.Hook = func(label, obj string, write bool, lo, hi int64) {
-			if sc.TrackRaces {
-				vsync.RecordAccess(obj, write, lo, hi, label)
+			if strings.HasPrefix(obj, "h:") {
+				// access to the state of one open handle (mapping/length, sequential offset): the part of
+				// a file that no FileSystem makes safe for concurrent use - happens-before race detection
+				if sc.TrackRaces {
+					vsync.RecordAccess(obj, write, 0, 0, label)
+				}
+				return
 			}
 			if sc.FSYield {
 				if sc.YieldSeg && obj != "dir" {
@@ -345,8 +350,14 @@ func RunScenario(sc *Scenario, base *Base, prefix []int, keepTrace bool, sleep .
 		}
 		vsync.Parallel(fns...)
 		if !r.Closed {
-			all, err := ReadAll(db)
-			if err != nil {
+			all, err := Model(nil), error(nil)
+			if !sc.Worker {
+				// (with a background worker the database is not quiescent until Close has stopped it:
+				// the contents are then read from the reopened directory instead)
+				all, err = ReadAll(db)
+			}
+			if sc.Worker {
+			} else if err != nil {
 				r.FinalMsg = err.Error()
 			} else {
 				r.Final = all
